@@ -9,7 +9,9 @@
 
    A module file is the list of its top-level statements as the private RecursiveParser hands them to
    the loader: declarations carry the `export` flag; an `import` statement can never be exported
-   (statement_parser.cpp:parseStatement does not set is_exported on it).  AST nodes / initialiser
+   (statement_parser.cpp:parseStatement does not set is_exported on it).  HOW the text of an item
+   (kind x spelling of its type) becomes such a statement is modelled in Front.v (parse_item / parse_fs);
+   the driver feeds every case through it.  AST nodes / initialiser
    values are abstract identities ([nat]): the loader only stores pointers to them.
 
    NOT modelled: the parse-time path RecursiveParser::processImport / resolveModulePath (it copies
@@ -18,7 +20,7 @@
    imported files, which sit in the private parser's impl_definitions_ - is modelled by
    [parser_impls], using the run-time path resolution); C++ ownership transfer of impl nodes;
    generic-name mangling in register_impl_definition (struct names are plain identifiers here);
-   selective imports `import m { a, b }` and aliases.
+   selective imports `import m { a, b }` (reached by translation of the file system) and aliases.
 
    The model mirrors /repo after the fix: commits e75028a (path form), 7f2ae2b (a module's own imports
    are executed, module marked loaded first), 871ed77 (array members kept), a650333 (impl statics).
